@@ -1269,6 +1269,7 @@ func (e *MetaCDC) startReplicateDMLMsg(replicateCtx context.Context, entity *Rep
 			return nil
 		}
 
+		defer verifEvent("dml-loop-exit", channelName)
 		defer func() {
 			err := packer.ClearMsgs(replicateMsgsFunc)
 			if err != nil {
